@@ -19,7 +19,7 @@ RULE = (
     "neighbour list) increases; dft_recursive's output obeys the pre-order rule (next vertex = first unlisted "
     "in-universe neighbour of the deepest path vertex that has one).  Determinism: repeating the call (also, with neighbor caching on, after calls with other short-lived filter callables) and "
     "rebuilding the description on fresh objects after unrelated allocations give the same index sequence.  "
-    "Non-trivial = some expanded vertex had >= 2 not-yet-listed neighbours (a real choice) and the three orders "
+    "Universes are optionally padded with 40 / 1000 isolated members, and every case is evaluated again on the same objects after a membership swap.  Non-trivial = some expanded vertex had >= 2 not-yet-listed neighbours (a real choice) and the three orders "
     "are not all equal; distinct = distinct case value."
 )
 ASSUMPTIONS = [
@@ -32,7 +32,7 @@ TECHNIQUE = "Hypothesis multigraphs vs. reference orders + validity predicates; 
 
 def budget(tier):
     if tier == "quick":
-        return dict(shards=16, examples=3000, time_s=50)
+        return dict(shards=16, examples=1500, time_s=55)
     return dict(shards=16, examples=80000, time_s=850)
 
 
@@ -60,10 +60,19 @@ def check_case(case):
 
 
 def _check_case(case):
+    S = trav.Setup(case)
+    info = _check_on(S, case)
+    if S.apply_swap():
+        info2 = _check_on(S, case, rebuild=False)
+        info["classes"] = sorted(set(info["classes"]) | {"after-membership-swap"})
+        info["nt"] = info["nt"] or info2["nt"]
+    return info
+
+
+def _check_on(S, case, rebuild=True):
     from edgegraph.traversal import breadthfirst as B
     from edgegraph.traversal import depthfirst as D
 
-    S = trav.Setup(case)
     verdict, R = S.expectation()
     if verdict != "ok":
         return dict(nt=False, classes=["skipped:" + verdict])
@@ -129,10 +138,11 @@ def _check_case(case):
                 again = S.idx(fn(S.uni, start, direction_sensitive=S.d, unknown_handling=S.u, ff_via=S.fresh_ff()))
                 require(again == first, "order-depends-on-earlier-call", f"{name} (caching on): {first} first, {again} after a call with another short-lived filter")
     junk = [object() for _ in range(257)] + [graphs.build({"nv": 3, "edges": [[0, 0, 1]], "reassign": []})]
-    S2 = trav.Setup(case)
-    for name, fn, first in (("bft", B.bft, bft), ("dft_recursive", D.dft_recursive, dfr), ("dft_iterative", D.dft_iterative, dfi)):
-        again = S2.idx(fn(S2.uni, S2.vs[s], **S2.kw()))
-        require(again == first, "rebuild-changes-order", f"{name}: {first} on the first build, {again} on an identical rebuild")
+    if rebuild:
+        S2 = trav.Setup(case)
+        for name, fn, first in (("bft", B.bft, bft), ("dft_recursive", D.dft_recursive, dfr), ("dft_iterative", D.dft_iterative, dfi)):
+            again = S2.idx(fn(S2.uni, S2.vs[s], **S2.kw()))
+            require(again == first, "rebuild-changes-order", f"{name}: {first} on the first build, {again} on an identical rebuild")
     del junk
 
     # ---- classification
@@ -144,7 +154,7 @@ def _check_case(case):
             choice = True
         seen.update(N(x))
     differ = not (bft == dfr == dfi)
-    classes = ["caching-on" if case.get("cache") else "caching-off"]
+    classes = ["caching-on" if case.get("cache") else "caching-off", f"pad{case.get('pad', 0)}"]
     if choice:
         classes.append("real-choice")
     if differ:
